@@ -416,6 +416,9 @@ func Gen(t *rapid.T, o Options) Desc {
 				// requirement), so it only comes together with a CRYPTO cap
 				if rapid.Bool().Draw(t, "plan-size") {
 					p.PacketSize = rapid.SampledFrom([]int{1200, 1232, 1250, 1280}).Draw(t, "plan-ps")
+					// "must leave room": header (CIDs up to 20+20, token up to 120), frame overheads of a builder
+					// that cuts the slice into up to ~12 CRYPTO frames plus PINGs, and the AEAD tag
+					p.CryptoLength = min(p.CryptoLength, p.PacketSize-420)
 				}
 			}
 			d.Plans = append(d.Plans, p)
